@@ -3,7 +3,7 @@
    correspondence run (harness/cmd/hC03) compares with the real code on every check. *)
 From Coq Require Import List Bool Arith NArith ZArith.
 Import ListNotations.
-From C03 Require Import Model ProofsCodec ProofsSearch ProofsNav ProofsGen ProofsLids ProofsBlocks.
+From C03 Require Import Model ProofsCodec ProofsSearch ProofsNav ProofsGen ProofsLids ProofsBlocks ProofsDocs ProofsTables.
 
 (* thm:C03_lids_roundtrip — for ALL posting lists (per field, per token; non-empty, strictly
    increasing, every LID below the end marker 2^32-1), every block capacity > 0, every token tid and
@@ -55,6 +55,60 @@ Theorem C03_ids_blocks : forall size (ids : list sid), 1 <= size ->
              /\ Forall (fun b => length b = size) (removelast bs).
 Proof. exact (@id_blocks_ok sid). Qed.
 Print Assumptions C03_ids_blocks.
+
+(* thm:C03_docs_sorted — the sorted-docs rewrite (writeSortedDocs: documents re-read in ID order, re-blocked
+   by a docBlocksWriter with block size bsz, new DocPos per ID, new block offsets) keeps every fetch: for
+   ANY active docs file / offsets / positions, any ID list (duplicates, any order), any block size and any
+   positive compressed block lengths, each stored ID (the zero ID is the sealer's "no previous ID" and cannot
+   be stored) reads from the rewritten file exactly the document it reads from the active file. Without the
+   rewrite (SkipSortDocs) the sealed fraction uses the active file, offsets and positions unchanged. *)
+Theorem C03_docs_sorted : forall bsz lens pa oa fa,
+  Forall (fun l => 0 < l)%N lens -> forall ids pn on fn,
+  (N.of_nat (length ids) + 1 < 4294967296)%N ->
+  write_sorted bsz lens pa oa fa ids = Ok (pn, on, fn) ->
+  forall id, In id ids -> id <> sid0 ->
+    fetch_doc pn on fn id = fetch_doc pa oa fa id /\ fetch_doc pa oa fa id <> None.
+Proof. exact docs_sorted. Qed.
+Print Assumptions C03_docs_sorted.
+
+(* ... and the rewrite itself cannot fail: with a block size within the DocPos offset range (30 bits;
+   the default is 4 MiB) PackDocPos never panics whatever the document sizes, as long as every ID has a
+   document in the active file *)
+Theorem C03_docs_sorted_total : forall bsz lens pa oa fa,
+  Forall (fun l => 0 < l)%N lens -> forall ids,
+  (bsz <= max_doc_offset)%N -> (N.of_nat (length ids) + 1 < 4294967296)%N ->
+  (forall id, In id ids -> fetch_doc pa oa fa id <> None) ->
+  exists r, write_sorted bsz lens pa oa fa ids = Ok r.
+Proof. exact docs_sorted_total. Qed.
+Print Assumptions C03_docs_sorted_total.
+
+(* thm:C03_ids_tables — Loader.Load walking the registry of the index file that sealing wrote (sections
+   ended by empty blocks; MinBlockIDs from the ext words of the MID blocks; LID table from ext1/ext2;
+   DiskStartBlockIndex and the LID StartIndex from the walk) returns exactly the tables sealing kept in
+   memory (PreloadedData). Needs: every written block has a non-zero length, LID blocks are not empty. *)
+Theorem C03_ids_tables : forall im,
+  image_ok im ->
+  Forall bok (map snd (im_lids im)) -> Forall chunks_pp (map snd (im_lids im)) ->
+  Forall (fun b => (b_min b < 4294967296)%N) (map snd (im_lids im)) ->
+  load (registry_of im) = Some (preloaded im).
+Proof. exact ids_tables. Qed.
+Print Assumptions C03_ids_tables.
+
+(* thm:C03_form_independent (postings and ID/LID tables) — on the layout the generator produces, the
+   tables a restart loads are the tables sealing kept, the chunks decoded from the file are the chunks
+   sealing held, and a posting read over the loaded tables = over the preloaded tables = the active answer *)
+Theorem C03_form_independent : forall cap fields im bs tid lo hi asc,
+  0 < cap -> input_ok fields -> input_sorted fields ->
+  (tokens_total fields < 4294967295)%N -> (1 <= tid <= tokens_total fields)%N ->
+  gen_blocks cap fields = Ok bs -> map snd (im_lids im) = bs -> image_ok im ->
+  load (registry_of im) = Some (preloaded im)
+  /\ roundtrip_chunks bs = map b_chunks bs
+  /\ (forall t, load (registry_of im) = Some t ->
+        read_with (tb_lids t) (roundtrip_chunks bs) asc tid lo hi
+        = read_with (tb_lids (preloaded im)) (map b_chunks bs) asc tid lo hi)
+  /\ read_with (tb_lids (preloaded im)) (map b_chunks bs) asc tid lo hi = Ok (expected asc fields tid lo hi).
+Proof. exact form_independent. Qed.
+Print Assumptions C03_form_independent.
 
 (* ---------------------------------------------------------------- non-vacuity and refutations *)
 
@@ -108,3 +162,44 @@ Example C03_tokenblocks_v0_refuted : tok_gen_v0 [(20000%N, 1%N)] = Panic.
 Proof. exact tokenblocks_v0_refuted. Qed.
 Example C03_tokenblocks_fixed_witness : tok_gen [(20000%N, 1%N)] = Ok [[(1%N, 1%N, true)]].
 Proof. exact tokenblocks_fixed_witness. Qed.
+
+(* the sorted-docs rewrite of a two-block active file with block size 6: three new blocks, a nested
+   (repeated) ID written once; the hypotheses of C03_docs_sorted hold for it *)
+Example C03_docs_sorted_nonvacuous :
+  let fa := [(20, [[1;2;3]; [9]]); (31, [[]; [7;7;7;7;7;7;7;7]])]%N in
+  let pa := [((5,1), 1); ((4,2), 8); ((3,3), 1073741825); ((2,4), 1073741829)]%N in
+  let ids := [(5,1); (4,2); (4,2); (3,3); (2,4)]%N in
+  Forall (fun l => 0 < l)%N [17; 13; 21]%N /\ (N.of_nat (length ids) + 1 < 4294967296)%N
+  /\ ~ In sid0 ids
+  /\ match write_sorted 6 [17; 13; 21]%N pa [0; 20]%N fa ids with
+     | Ok (pn, on, fn) => on = [0; 17; 30]%N /\ map snd fn = [[[1;2;3]]; [[9]; []]; [[7;7;7;7;7;7;7;7]]]%N
+                          /\ fetch_doc pn on fn (2,4)%N = Some [7;7;7;7;7;7;7;7]%N
+                          /\ fetch_doc pn on fn (3,3)%N = Some []
+                          /\ fetch_doc pn on fn (4,2)%N = Some [9]%N
+     | _ => False
+     end.
+Proof.
+  cbv zeta. split; [repeat constructor|]. split; [reflexivity|]. split.
+  - cbn. intros H. repeat (destruct H as [H|H]; [discriminate|]). exact H.
+  - vm_compute. repeat split.
+Qed.
+
+(* the zero ID is skipped by the rewrite (prevID starts as the zero ID): it would be lost *)
+Example C03_docs_zero_id_dropped :
+  match write_sorted 10 [17]%N [((0,0), 1)]%N [0]%N [(20, [[1;2;3]])]%N [(0,0)]%N with
+  | Ok (pn, on, fn) => fetch_doc pn on fn (0,0)%N = None
+  | _ => False
+  end.
+Proof. vm_compute. reflexivity. Qed.
+
+(* registry walk on the layout of C03_lids_roundtrip_nonvacuous with two ID blocks *)
+Example C03_ids_tables_witness :
+  let bs := [mkBlock 1 1 false (mkChunks [[1;2;3]%N] false);
+             mkBlock 2 1 true (mkChunks [[4;5;6]%N] false);
+             mkBlock 2 2 true (mkChunks [[7]%N; [2;9]%N] true);
+             mkBlock 3 3 false (mkChunks [[5]%N] true)] in
+  let im := mkImage 100 [40; 41]%N [30]%N 12 [((900, 5), (11, 12, 13)); ((100, 7), (14, 15, 16))]%N
+                    (combine [21; 22; 23; 24]%N bs) in
+  load (registry_of im) = Some (preloaded im)
+  /\ preloaded im = mkTables [(900, 5); (100, 7)]%N 7 14 (table_of bs).
+Proof. vm_compute. split; reflexivity. Qed.
